@@ -869,6 +869,10 @@ func (g *gen) rule(v0 bool, i int) string {
 		}
 		return n + " contains x if { x := " + g.val() + " }"
 	case 12:
+		if g.r.Below(3) == 0 {
+			// a chain of else branches on one line, mixing = and :=
+			return n + "(x)" + g.eq() + g.val() + iff + "{ x == 1 } else" + g.eq() + g.val() + iff + "{ x == 2 } else" + g.eq() + g.val()
+		}
 		return n + "(x)" + g.eq() + g.val() + iff + "{ x == 1 } else" + g.eq() + g.val()
 	}
 	return n + "[x]" + g.eq() + "y" + iff + "{ x := 1; y := " + g.val() + " }"
